@@ -4,6 +4,7 @@ import (
 	"bytes"
 	"encoding/json"
 	"fmt"
+	"io"
 	"math/rand/v2"
 	"os"
 	"path/filepath"
@@ -11,6 +12,7 @@ import (
 	"strconv"
 	"strings"
 	"sync"
+	"testing/iotest"
 	"unicode/utf8"
 
 	"github.com/invopop/gobl/c14n"
@@ -32,6 +34,53 @@ func canonReal(in []byte) (out []byte, err error, panicked any) {
 	out, err = c14n.CanonicalJSON(bytes.NewReader(in))
 	return
 }
+
+// chunkReader hands its data over in pieces of the given sizes (cyclically).
+type chunkReader struct {
+	data  []byte
+	sizes []int
+	i     int
+}
+
+func (r *chunkReader) Read(p []byte) (int, error) {
+	if len(r.data) == 0 {
+		return 0, io.EOF
+	}
+	n := r.sizes[r.i%len(r.sizes)]
+	r.i++
+	if n > len(p) {
+		n = len(p)
+	}
+	if n > len(r.data) {
+		n = len(r.data)
+	}
+	copy(p, r.data[:n])
+	r.data = r.data[n:]
+	return n, nil
+}
+
+// canonVia canonicalises through other kinds of reader: byte by byte, in
+// uneven pieces, and with the end of input reported together with the data.
+func canonVia(kind int, in []byte) (out []byte, err error, panicked any) {
+	defer func() {
+		if r := recover(); r != nil {
+			panicked = r
+		}
+	}()
+	var rd io.Reader
+	switch kind {
+	case 0:
+		rd = iotest.OneByteReader(bytes.NewReader(in))
+	case 1:
+		rd = &chunkReader{data: append([]byte{}, in...), sizes: []int{7, 1, 64, 3, 509, 2}}
+	default:
+		rd = iotest.DataErrReader(bytes.NewReader(in))
+	}
+	out, err = c14n.CanonicalJSON(rd)
+	return
+}
+
+const c07readerKinds = 3
 
 type c07 struct {
 	c     *Ctx
@@ -197,6 +246,22 @@ func (k *c07) checkMalformed(in []byte, class string) {
 	}
 	if !valid {
 		k.cnt("malformed_rejected")
+	}
+	// the verdict and the output may not depend on how the reader delivers the bytes
+	if class == "trailing" || class == "boundary" || len(in)%64 == 0 {
+		for kind := 0; kind < c07readerKinds; kind++ {
+			if kind == 0 && len(in) > 5000 {
+				continue // byte-by-byte delivery of long inputs costs too much; the uneven pieces cover them
+			}
+			o2, e2, p2 := canonVia(kind, in)
+			k.cnt("reader_variants")
+			switch {
+			case p2 != nil:
+				k.c.R.Fail("panic:reader:"+class, fmt.Sprintf("panic %v on input %q delivered by reader kind %d", p2, trunc(string(in)), kind), map[string]any{"input": string(in), "reader": kind})
+			case (e2 == nil) != (err == nil) || !bytes.Equal(o2, out):
+				k.c.R.Fail("reader-dependent:"+class, fmt.Sprintf("input %q (%d bytes): from memory err=%v out=%s, delivered by reader kind %d err=%v out=%s", trunc(string(in)), len(in), err, trunc(string(out)), kind, e2, trunc(string(o2))), map[string]any{"input": string(in), "reader": kind})
+			}
+		}
 	}
 }
 
@@ -458,6 +523,35 @@ func runC07(c *Ctx) {
 		c.R.Cases(n, n)
 		k.flush()
 	})
+	// values whose length sits on and around the read-ahead sizes of buffered
+	// decoders, followed by trailing data
+	kb := &c07{c: c, local: map[string]int64{}, inj: inj}
+	bsizes := []int{256, 512, 1024, 2048, 4096}
+	if c.Thorough {
+		bsizes = append(bsizes, 8192, 16384, 32768, 65536)
+	}
+	for _, size := range bsizes {
+		for delta := -2; delta <= 2; delta++ {
+			n := size + delta
+			for form := 0; form < 3; form++ {
+				var d []byte
+				switch form {
+				case 0:
+					d = []byte(`["` + strings.Repeat("a", n-4) + `"]`)
+				case 1:
+					d = []byte(`{"k":` + strings.Repeat(" ", n-7) + `1}`)
+				default:
+					d = []byte(`[1]` + strings.Repeat(" ", n-3))
+				}
+				kb.checkMalformed(d, "boundary")
+				for _, tail := range []string{"x", ",", "}", "]", "1", " 1", "null", `{"b":2}`, `"more"`, "\x00"} {
+					kb.checkMalformed(append(append([]byte{}, d...), tail...), "boundary")
+				}
+				c.R.Cases(11, 11)
+			}
+		}
+	}
+	kb.flush()
 	fixed := map[string][]string{
 		"empty":        {"", " ", "\n\t", "\xef\xbb\xbf"},
 		"bad-escape":   {`"\x"`, `"\u12"`, `"\u12G4"`, `"\`, `"\uD800"`, `"\uDC00\uD800"`, `["\uD800x"]`},
